@@ -11,7 +11,7 @@ from scratch import VERIF, Undecided
 CDIR = os.path.join(VERIF, "contracts", "verus")
 
 # unit -> (template, properties served, {fn name -> properties} overrides)
-PRELUDE_FNS = {"make_valid_address|calculate_from_offset": ["C04", "C09"]}
+PRELUDE_FNS = {"make_valid_address|calculate_from_offset|inc_addr|separate_bytes": ["C04", "C09"]}
 UNITS = {
     "loader": {"tpl": "loader.rs", "props": ["C12", "C09", "C04"],
                "fn_props": {**PRELUDE_FNS, "ld_.*": ["C12", "C09"]}},
@@ -31,7 +31,7 @@ UNITS = {
     "interrupts": {"tpl": "interrupts.rs", "props": ["C18", "C09"],
                    "fn_props": {**PRELUDE_FNS, "int_13|store_input_line": ["C18", "C09"]}},
     "lemmas": {"tpl": "lemmas.rs", "props": ["C05", "C07", "C12"],
-               "fn_props": {**PRELUDE_FNS, "lemma_rep.*": ["C07"], "lemma_push.*|lemma_sp_casts|lemma_word|bridge_p.*|get_word_reg_val|set_word_reg_val": ["C05"], "lemma_contiguous|lemma_len": ["C12"]}},
+               "fn_props": {**PRELUDE_FNS, "lemma_rep.*|bridge_rep.*|bridge_string_plain|verif_fnptr_apply": ["C07"], "lemma_push.*|lemma_sp_casts|lemma_word|bridge_p.*|get_word_reg_val|set_word_reg_val": ["C05"], "lemma_contiguous|lemma_len": ["C12"]}},
     "transfer": {"tpl": "transfer.rs", "props": ["C08", "C14", "C04", "C12", "C18", "C09", "C10"],
                  "fn_props": {**PRELUDE_FNS, "it_call|it_ret": ["C08", "C14", "C09", "C10"], "lemma_nested.*|lemma_ret_resumes.*|bridge_.*": ["C08"], "it_jumps_loops": ["C08", "C14", "C09", "C10"],
                               "it_int": ["C14", "C18", "C09", "C10"], "it_byte_label|it_word_label": ["C04", "C12", "C14", "C09", "C10"], "get_type": ["C08", "C14"]}},
@@ -58,7 +58,7 @@ UNITS = {
 VERUS_TRUSTED = [
     "Verus 0.2026.09.13 + its Z3; vstd's assumed specifications for Vec, HashMap<String,_> (obeys_key_model::<String>()), integer conversions",
     "assumed: <usize as Into<usize>>::into is the identity (one external_body axiom; vstd has no spec for that instance)",
-    "assumed contracts of inc_addr and separate_bytes inside Verus units; both are discharged by Kani units l0_inc_addr / l0_separate_bytes",
+    "inc_addr and separate_bytes are the REAL functions in every Verus unit (generic `+` through vstd AddSpec; two bit_vector hints) -- no cross-engine assumption any more; assumed of vstd: usize obeys AddSpec with add_spec = +",
     "assumed (prelude): documented meaning of u8/u16/u32::overflowing_add/sub, u16::swap_bytes, i8/i16::wrapping_neg (std functions without a vstd specification; used by no function on the pinned tree)",
     "assumed (prelude): str::trim_end / trim_start return an UNINTERPRETED function of the text (used by no function on the pinned tree): code that starts to use them is verified with nothing known about the result",
     "extractor rewrites R1-R6 (tuple-pattern parameters, ghost output log for print!, opaque format!, quantified stdin, attributes dropped, named ghost loop iterator)",
